@@ -83,7 +83,7 @@ class SProcess:
         j = len(self.handed)
         s = self.ctx.real(f"s{j}") if self.concrete is None else self.concrete[j]
         self.handed.append(s)
-        arr = np.empty(2, dtype=object if self.concrete is None else float)
+        arr = np.empty(2, dtype=object if (self.concrete is None or V.is_sym(s)) else float)
         arr[0], arr[1] = 0.0, s
         return SPath(arr)
 
@@ -166,12 +166,13 @@ def replay_cv(sc):
     n = sc["n"]
     ss = [0.8 + 0.37 * j + 0.11 * (j % 2) for j in range(n)]
     xs_price = sc.get("px", 0.7)
-    cvprod = PROD.Product(payoff_underlying=UND.Spot(), payoff=PAY.Forward(strike=0.2), maturity=1.0, notional=1.0)
+    nx = sc.get("nx", 1.0)
+    cvprod = PROD.Product(payoff_underlying=UND.Spot(), payoff=PAY.Forward(strike=0.2), maturity=1.0, notional=nx)
     cv = PROD.ControlVariates(products=[cvprod], prices=[xs_price])
     eng, prod, proc = make(None, n, [1.0], 2.0, 0.9, cv=cv, concrete=ss)
     stats = eng.price(prod)
     Y = np.array([0.9 * 2.0 * max(s - 1.0, 0.0) for s in ss])
-    X = np.array([0.9 * (s - 0.2) for s in ss])
+    X = np.array([0.9 * nx * (s - 0.2) for s in ss])
     b = np.cov(X, Y, bias=True)[0, 1] / np.cov(X, Y, bias=True)[0, 0]
     want = float(np.mean(Y - b * (X - xs_price)))
     got = float(stats.price())
@@ -183,13 +184,14 @@ def h_cv(ctx, n):
     notional = ctx.real("notional")
     kx = ctx.real("kx")
     px = ctx.real("price_x")
-    cvprod = PROD.Product(payoff_underlying=UND.Spot(), payoff=PAY.Forward(strike=kx), maturity=1.0, notional=1.0)
+    nx = ctx.real("notional_x")
+    cvprod = PROD.Product(payoff_underlying=UND.Spot(), payoff=PAY.Forward(strike=kx), maturity=1.0, notional=nx)
     cv = PROD.ControlVariates(products=[cvprod], prices=[px])
     eng, prod, proc = make(ctx, n, None, notional, df, cv=cv)
     stats = eng.price(prod)
-    rp = (replay_cv, lambda m: {"n": n})
+    rp = (replay_cv, lambda m: {"n": n, "nx": 2.5})
     Y = [df * notional * s for s in proc.handed]
-    X = [df * (s - kx) for s in proc.handed]
+    X = [df * nx * (s - kx) for s in proc.handed]
     mx, my = sum(X) / n, sum(Y) / n
     sxx = sum((x - mx) * (x - mx) for x in X) / n
     sxy = sum((x - mx) * (y - my) for x, y in zip(X, Y)) / n
@@ -210,6 +212,114 @@ def h_cv(ctx, n):
     ctx.prove("C07.cv.adjusted_variance_is_raw_minus_explained", EQ_RATIONAL((var_raw - var_adj) * sxx, sxy * sxy), info={"n": n}, replay=rp, timeout_ms=60000)
 
 
+def replay_cv2(sc):
+    n = sc["n"]
+    ss = [0.8, 1.3, 1.1, 1.9, 0.6, 1.45][:n]
+    p = sc.get("p", [0.7, 0.25])
+    cv1 = PROD.Product(payoff_underlying=UND.Spot(), payoff=PAY.Forward(strike=0.2), maturity=1.0, notional=1.0)
+    cv2 = PROD.Product(payoff_underlying=UND.Spot(), payoff=PAY.Vanilla(strike=1.2, payoff_type=PAY.PayoffType.CALL), maturity=1.0, notional=1.5)
+    cv = PROD.ControlVariates(products=[cv1, cv2], prices=list(p))
+    eng, prod, proc = make(None, n, [1.0], 2.0, 0.9, cv=cv, concrete=ss)
+    stats = eng.price(prod)
+    Y = np.array([0.9 * 2.0 * max(s - 1.0, 0.0) for s in ss])
+    X = np.array([[0.9 * (s - 0.2) for s in ss], [0.9 * 1.5 * max(s - 1.2, 0.0) for s in ss]])
+    c = np.cov(X, Y, bias=True)
+    b = np.linalg.inv(c[:2, :2]) @ c[:2, 2]
+    want = float(np.mean(Y - b @ (X - np.array(p)[:, None])))
+    got = float(stats.price())
+    return abs(got - want) > 1e-9, (f"two controls (forward K=0.2 at price {p[0]}, 1.5 x call K=1.2 at price {p[1]}), spots {ss}: reported price {got!r}, "
+                                    f"textbook mean(Y - b*.(X - prices)) = {want!r} with b* = {b.tolist()}")
+
+
+def h_cv2(ctx, n):
+    """two controls (forward and call, both with a notional) with plain-float prices.  Compositional: (a) the covariance matrix the
+    library computes equals the textbook biased sample covariances entry by entry; (b) with the matrix replaced by fresh symbols
+    sigma_ij (any symmetric matrix the library does not switch off), the reported price is my - b*.(mx - prices), b* = Sigma_X^-1 Sigma_XY."""
+    df = ctx.real("df", 0)
+    notional = ctx.real("notional")
+    k1, k2 = ctx.real("kx1"), ctx.real("kx2")
+    p1, p2 = ctx.real("price_x1"), ctx.real("price_x2")
+    n2 = ctx.real("notional_x2")
+    cv1 = PROD.Product(payoff_underlying=UND.Spot(), payoff=PAY.Forward(strike=k1), maturity=1.0, notional=1.0)
+    cv2 = PROD.Product(payoff_underlying=UND.Spot(), payoff=PAY.Vanilla(strike=k2, payoff_type=PAY.PayoffType.CALL), maturity=1.0, notional=n2)
+    cv = PROD.ControlVariates(products=[cv1, cv2], prices=[p1, p2])
+    spots = [ctx.real(f"s{j}") for j in range(n)]
+    k0 = ctx.real("k0")
+    ctx.fork_max = True  # one path per in/out-of-the-money pattern: every obligation is a polynomial identity
+    eng, prod, proc = make(ctx, n, [k0], notional, df, cv=cv, concrete=spots)
+    rp = (replay_cv2, lambda m: {"n": max(n, 4)})
+    info = {"n": n, "controls": 2}
+    Y = [df * notional * shims._smax_fork(s - k0, 0.0) for s in spots]
+    X1 = [df * (s - k1) for s in spots]
+    X2 = [df * n2 * shims._smax_fork(s - k2, 0.0) for s in spots]
+    mean = lambda v: sum(v) / n
+    cov = lambda u, v: sum((a - mean(u)) * (b - mean(v)) for a, b in zip(u, v)) / n
+    rows = [X1, X2, Y]
+    sig = {}
+    npx = PROD.np
+    orig_cov = npx.cov
+
+    def cov_hook(m, y=None, rowvar=True, bias=False, ddof=None, **kw):
+        C = orig_cov(m, y=y, rowvar=rowvar, bias=bias, ddof=ddof, **kw)
+        ok = np.shape(C) == (3, 3)
+        ctx.prove("C07.cv.covariances_are_biased_sample_covariances",
+                  ok and AND(*[EQ(C[i][j], cov(rows[i], rows[j])) for i in range(3) for j in range(3)]), info=info, replay=rp)
+        S = np.empty((3, 3), dtype=object)
+        for i in range(3):
+            for j in range(i, 3):
+                S[i, j] = S[j, i] = sig.setdefault((i, j), ctx.real(f"sigma{i}{j}"))
+        eps = Fraction(1, 10**6)  # the library switches the controls off when an entry of Sigma_X is below 1e-12 in absolute value
+        ctx.assume(AND(S[0, 0] > eps, S[1, 1] > eps, OR(S[0, 1] > eps, S[0, 1] < -eps), S[0, 0] * S[1, 1] - S[0, 1] * S[0, 1] > eps))
+        return S
+
+    npx.cov = cov_hook
+    try:
+        stats = eng.price(prod)
+    finally:
+        del npx.cov
+    adj = stats.price()
+    my = mean(Y)
+    ctx.prove("C07.cv.raw_price_unchanged", EQ(stats.price(no_control_variates=True), my), info=info, replay=rp)
+    s11, s12, s22, s1y, s2y = sig[(0, 0)], sig[(0, 1)], sig[(1, 1)], sig[(0, 2)], sig[(1, 2)]
+    det = s11 * s22 - s12 * s12
+    # b* = Sigma_X^-1 Sigma_XY (Cramer): adjusted mean = my - b1 (mx1 - p1) - b2 (mx2 - p2)
+    b1n, b2n = s22 * s1y - s12 * s2y, s11 * s2y - s12 * s1y
+    ctx.prove("C07.cv.adjusted_price_is_mean_of_Y_minus_bstar_X_minus_price",
+              EQ_RATIONAL((adj - my) * det, -(b1n * (mean(X1) - p1) + b2n * (mean(X2) - p2))), info=info, replay=rp, timeout_ms=90000)
+
+
+def replay_twice(sc):
+    n, k = sc["n"], sc.get("calls", 2)
+    ss = [0.8 + 0.37 * j for j in range(n * k)]
+    eng, prod, proc = make(None, n, [1.0], 2.0, 0.9, concrete=ss)
+    details = []
+    for c in range(k):
+        stats = eng.price(prod)
+        want = sum(0.9 * 2.0 * max(s - 1.0, 0.0) for s in ss[c * n:(c + 1) * n]) / n
+        got = float(stats.price())
+        if abs(got - want) > 1e-12:
+            details.append(f"pricing call {c + 1} on the same Product: price {got!r} vs discounted mean of its own {n} paths {want!r}")
+    if prod.notional != 2.0:
+        details.append(f"Product.notional changed from 2.0 to {prod.notional!r}")
+    return bool(details), f"df=0.9, notional=2: " + "; ".join(details)
+
+
+def h_twice(ctx, n):
+    """the same engine and Product priced twice: every call is the discounted mean of its own paths (nothing carried over)"""
+    df = ctx.real("df", 0)
+    notional = ctx.real("notional")
+    k = ctx.real("k0")
+    eng, prod, proc = make(ctx, n, [k], notional, df)
+    rp = (replay_twice, lambda m: {"n": n})
+    for call in range(2):
+        stats = eng.price(prod)
+        mine = proc.handed[call * n:(call + 1) * n]
+        ctx.prove("C07.simulates_exactly_the_configured_number_of_paths", len(proc.handed) == (call + 1) * n, info={"n": n, "call": call}, replay=rp)
+        mean = sum(payoff_oracle(s, [k], notional, df)[0] for s in mine) / n
+        ctx.prove("C07.repeated_pricing_uses_only_its_own_paths", EQ(np.atleast_1d(stats.price())[0], mean), info={"n": n, "call": call}, replay=rp)
+    ctx.prove("C07.pricing_leaves_the_product_unchanged", AND(EQ(prod.notional, notional), EQ(prod.payoff.strike, k)), info={"n": n}, replay=rp)
+
+
 def h_twin(ctx):
     eng, prod, proc = make(ctx, 2, None, ctx.real("notional"), ctx.real("df", 0))
     stats = eng.price(prod)
@@ -219,7 +329,10 @@ def h_twin(ctx):
 def concrete_validation():
     ok, d = replay_price({"n": 3, "strikes": [1.0]})
     ok2, d2 = replay_cv({"n": 4})
-    return [("C07.concrete.price", not ok, d or "price/error equal textbook values on floats"), ("C07.concrete.cv", not ok2, d2)]
+    ok3, d3 = replay_cv({"n": 4, "nx": 2.5})
+    ok4, d4 = replay_twice({"n": 3, "calls": 3})
+    return [("C07.concrete.price", not ok, d or "price/error equal textbook values on floats"), ("C07.concrete.cv", not ok2, d2),
+            ("C07.concrete.cv_notional", not ok3, d3), ("C07.concrete.repeated_pricing", not ok4, d4 or "three pricings of one Product agree with their own paths")]
 
 
 def harnesses(tier):
@@ -231,19 +344,25 @@ def harnesses(tier):
     hs.append(Harness("price.spotstats", h_price, {"n": 2, "ncomp": 1, "spot_stats": True}, max_paths=2000))
     for n in ((2, 3) if q else (2, 3, 4)):
         hs.append(Harness(f"cv.N{n}", h_cv, {"n": n}, max_paths=2000, timeout_ms=90000))
+    for n in ((3,) if q else (3, 4)):
+        hs.append(Harness(f"cv2.N{n}", h_cv2, {"n": n}, max_paths=2000, timeout_ms=120000))
+    for n in ((1, 2) if q else (1, 2, 3)):
+        hs.append(Harness(f"twice.N{n}", h_twice, {"n": n}, max_paths=2000))
     hs.append(Harness("twin", h_twin, twin="must_fail"))
     return hs
 
 
 EXPECT = ["C07.price_is_discounted_mean_of_notional_scaled_payoff", "C07.mc_error_is_unbiased_stddev_over_sqrt_N", "C07.simulates_exactly_the_configured_number_of_paths",
           "C07.cv.adjusted_price_is_mean_of_Y_minus_bstar_X_minus_price", "C07.cv.equals_raw_when_control_mean_equals_its_price",
-          "C07.cv.adjusted_variance_is_raw_minus_explained"]
+          "C07.cv.adjusted_variance_is_raw_minus_explained", "C07.cv.covariances_are_biased_sample_covariances", "C07.repeated_pricing_uses_only_its_own_paths", "C07.pricing_leaves_the_product_unchanged"]
 
 
 def main(tier):
     bounds = {"paths": "N <= 3 (quick) / 4 (thorough)", "payoff": "forward, call with scalar strike, call with a vector of 2 strikes; notional, discount factor, strikes arbitrary reals",
-              "controls": "one control (forward on the spot) with arbitrary price; N <= 3/4",
-              "outside": "two or more controls (2x2 inverse) and vector-strike payoffs with controls; worker pools (C08)"}
+              "controls": "one control (forward on the spot, arbitrary notional, strike and price), N <= 3/4; two controls (forward and call with a notional, "
+                          "plain-float prices, 2x2 inverse), N = 3 (quick) / 3, 4 (thorough)",
+              "repeated pricing": "the same engine and Product priced twice, N <= 2/3",
+              "outside": "three or more controls and vector-strike payoffs with controls; worker pools (C08)"}
     return run_check(PID, tier, harnesses(tier), expect=EXPECT, bounds=bounds,
                      assumptions=COMMON_ASSUMPTIONS + ["scripted process (public Process interface) handing out fresh symbolic terminal spots", "sqrt as UF with sqrt(t)^2 = t",
                                                        "np.cov / np.std replaced by their definitions on symbolic samples"])
